@@ -115,10 +115,10 @@ def run(ctx):
                     construct=f"param_dict['{key}']")
     fi2 = ctx.func('frame.Frame.from_backend_params')
     r2, I2 = ctx.run(fi2, no_inline=('frame.Frame.__init__',))
-    st = ctx.stores(I2, 'name', 'df', func=fi2.short)
-    ctx.require(st, 'from_backend_params no longer computes df')
-    ctx.formula('AGREE', 'from_backend_params.df == params_from_backend.df', fi2, st[-1].data['value'],
-                ctx.spec(fi2, 'sample_rate / num_branches / fftlength'), node=st[-1].node)
+    st = [e for e in I2.events if e.kind == 'call' and e.data.get('name') == 'frame.Frame.__init__' and 'df' in (e.data.get('bound') or {})]
+    ctx.require(st, 'from_backend_params no longer constructs the frame with a df')
+    ctx.formula('AGREE', 'from_backend_params: frame df == params_from_backend.df', fi2, st[-1].data['bound']['df'],
+                ctx.spec(fi2, 'sample_rate / num_branches / fftlength'), node=st[-1].node, construct='cls(df=...)')
 
     from .common import agree_ref
     REF_FBP = """
